@@ -411,6 +411,21 @@ func (self *TextParser) ParseResponse() error {
 					if err != nil {
 						return errors.New("Response parse args count error")
 					}
+					if cargLen < 0 {
+						// nil bulk string "$-1\r\n": complete at this CRLF, there is no payload line
+						self.cargLen = 0
+						self.cargIndex = 0
+						self.bufIndex++
+						if self.argsType == 4 {
+							self.args = append(self.args, "")
+						}
+						if len(self.args) < self.argsCount {
+							self.stage = 2
+							break
+						}
+						self.stage = 0
+						return nil
+					}
 					self.cargLen = cargLen
 					self.cargIndex = 0
 					self.bufIndex++
